@@ -9,12 +9,12 @@ import (
 
 // packages whose calls have no effect on the modelled state (logging, metrics, profiling)
 var effectFreePkgs = map[string]bool{
-	"github.com/sirupsen/logrus":               true,
-	"github.com/ProtonMail/gluon/logging":      true,
-	"github.com/ProtonMail/gluon/profiling":    true,
-	"github.com/ProtonMail/gluon/reporter":     true,
+	"github.com/sirupsen/logrus":                true,
+	"github.com/ProtonMail/gluon/logging":       true,
+	"github.com/ProtonMail/gluon/profiling":     true,
+	"github.com/ProtonMail/gluon/reporter":      true,
 	"github.com/ProtonMail/gluon/observability": true,
-	"runtime/pprof":                            true,
+	"runtime/pprof":                             true,
 }
 
 // standard-library packages whose functions do not write memory reachable from their arguments
